@@ -205,8 +205,8 @@ fn gen_case(r: &mut StdRng) -> Case {
         lp: r.gen_bool(0.45),
         ci: r.gen_bool(0.55),
     };
-    let literal_only = r.gen_range(0..4) == 0;
-    let n = r.gen_range(0..5);
+    let literal_only = r.gen_range(0..6) == 0;
+    let n = if r.gen_range(0..12) == 0 { 0 } else { r.gen_range(1..6) };
     let pieces: Vec<Piece> = (0..n).map(|_| piece(r, literal_only)).collect();
     let mut pcs: Vec<(char, bool)> = pieces.iter().flat_map(|p| p.pc.iter().copied()).collect();
     pcs.truncate(30);
